@@ -4,11 +4,12 @@ and require that none of them raises an alarm (exit 0, no VIOLATION line). Undo 
 import json, os, subprocess, sys, glob, re, time
 
 VERIF = os.path.dirname(os.path.dirname(os.path.abspath(__file__)))
+REPO = os.environ.get("REPO_DIR", "/repo")
 
 
 def main():
     only = sys.argv[1:]
-    st = subprocess.run(["git", "-C", "/repo", "status", "--porcelain", "--untracked-files=no"], stdout=subprocess.PIPE, text=True).stdout.strip()
+    st = subprocess.run(["git", "-C", REPO, "status", "--porcelain", "--untracked-files=no"], stdout=subprocess.PIPE, text=True).stdout.strip()
     if st:
         print("refusing: /repo has uncommitted changes")
         return 2
@@ -18,7 +19,7 @@ def main():
         name = os.path.basename(d)[:-5]
         if only and not any(o in name for o in only):
             continue
-        if subprocess.run(["git", "-C", "/repo", "apply", d]).returncode != 0:
+        if subprocess.run(["git", "-C", REPO, "apply", d]).returncode != 0:
             print(name, "does not apply")
             continue
         res = {}
@@ -34,7 +35,7 @@ def main():
                           "first": (re.search(r"^VIOLATION.*\n(    .*)", r.stdout, re.M) or [None, ""])[1].strip()[:300] if viol else
                                    (re.search(r"^TOOL-ERROR.*", r.stdout, re.M) or [""])[0][:300]}
         finally:
-            subprocess.run(["git", "-C", "/repo", "checkout", "--", "."])
+            subprocess.run(["git", "-C", REPO, "checkout", "--", "."])
         out[name] = res
         alarms = {p: v for p, v in res.items() if v["exit"] != 0}
         print(name, "ALARMS: %s" % alarms if alarms else "quiet on all %d checks" % len(res), flush=True)
